@@ -34,7 +34,12 @@ ILL_OPS = {
                     {"variant": "Client", "arch": "x86_64", "path": "GPL", "size": 1, "checksums": {}}],
 }
 BASES = ["Server/x86_64/os", "Server/x86_64/os/", "Server/x86_64/os//", "Server/x86_64/o", "Server/x86", "Client", "", "/",
-         "a/b", "a/b/", "a", "a/", "a/b/c", "Server/x86_64/os/GPL", "docs", "doc", "a/bc", "Server/x86_64/os2"]
+         "a/b", "a/b/", "a", "a/", "a/b/c", "Server/x86_64/os/GPL", "docs", "doc", "a/bc", "Server/x86_64/os2",
+         "os", "os/", "a/a", "a/a/", "a/a//", "x/os", "a/b/a", "os/repos"]
+# base (with / without trailing slashes) occurring again inside and at the end of the path; repeated components
+REPEAT = [("Server/x86_64/os", "Server/x86_64/os/docs/Server/x86_64/os/GPL"), ("os", "os/repos/os/EULA"), ("os/", "os/os/os/EULA"),
+          ("a/a", "a/a/a/a/x"), ("a/a/", "a/a/b/a/a/x"), ("a", "a/a/a"), ("a", "a/ba/a/x"), ("a//", "a/x/a/"), ("x/os", "x/os/x/os/x/os"),
+          ("a/b", "a/b/a/b"), ("a/b", "a/b/a/b/"), ("a/b", "a/b/c/a/b/c/a/b"), ("os", "repos/os/EULA"), ("os", "osos/os/EULA"), ("b", "a/b/b/x")]
 
 
 def strip_ops(ops):
@@ -81,6 +86,18 @@ class C12(Prop):
             v = ops[0]["variant"] if rng.random() < 0.9 else "Nope"
             a = ops[0]["arch"] if rng.random() < 0.9 else "s390x"
             yield {"op": "dump_for_tree", "args": {"ops": ops, "variant": v, "arch": a, "basepath": rng.choice(BASES)}}
+        for base, path in REPEAT:
+            for tail in ("", "/", "//"):
+                yield {"op": "relative_to", "args": {"path": path, "root": base.rstrip("/") + tail}}
+        for i in range(n_rel // 3):
+            # built: base + "/" + middle + base + "/" + rest, and paths made of one repeated component
+            comps = [rng.choice(["a", "os", "x", "Server", "b"]) for _ in range(rng.choice([1, 2, 3]))]
+            base = "/".join(comps)
+            if rng.random() < 0.5:
+                path = base + "/" + rng.choice(["", "docs/", "repos/", "a/"]) + base + "/" + rng.choice(["", "GPL", base, base + "/x"])
+            else:
+                path = "/".join([comps[0]] * rng.randint(2, 5)) + rng.choice(["", "/x", "/"])
+            yield {"op": "relative_to", "args": {"path": path, "root": base + rng.choice(["", "/", "//"])}}
         for i in range(n_rel):
             path = rng.choice(f_extra.DIRS) + rng.choice(f_extra.FILES)
             r = rng.random()
@@ -312,8 +329,10 @@ class C12(Prop):
                 o = st["out"].get("err", "ok")
                 d["outcomes"][o] = d["outcomes"].get(o, 0) + 1
         else:
-            d = dist.setdefault(case["op"], {"n": 0, "stripped": 0, "err": 0})
+            d = dist.setdefault(case["op"], {"n": 0, "stripped": 0, "err": 0, "base_reoccurs_after_strip": 0})
             d["n"] += 1
+            if case["op"] == "relative_to" and real_out.get("ok") != a["path"] and (a["root"].rstrip("/") + "/") in (real_out.get("ok") or ""):
+                d["base_reoccurs_after_strip"] += 1
             if case["op"] == "relative_to" and real_out.get("ok") != a["path"]:
                 d["stripped"] += 1
             if "err" in real_out:
